@@ -13,7 +13,7 @@ from cvh import gen, ir as IR, oracle, treeprop as TP
 
 ID = "C18"
 LEVEL = "exploration"
-BUDGET = {"quick": 6000, "thorough": 80000}
+BUDGET = {"quick": 12000, "thorough": 100000}
 WALL = {"quick": 240, "thorough": 2700}
 MIN_CASES = {"quick": 600, "thorough": 6000}
 RULE = ("(history) Hypothesis draws a pool of operators (positive-definite / invertible / generic trees of every kind) and "
@@ -82,7 +82,7 @@ def ann_set(op):
 ALGS = ["omitted", "Auto", "LU", "Cholesky", "CG", "GMRES"]
 STEPS = ["matvec", "rmatvec", "matmat", "T", "H", "add", "sub", "mulc", "divc", "neg", "matmul", "kron", "kronsum", "bd", "annotate",
          "densify", "getitem_row", "getitem_slice", "getitem_idx", "to_none", "inv", "solve", "logdet", "diag", "trace", "exp", "sqrt",
-         "pow", "eig", "svd", "cholesky", "plu", "cg", "gmres", "lanczos", "arnoldi", "hutch", "flatten", "inv_left", "inv_T", "rmatmat", "to_dtype",
+         "pow", "eig", "svd", "cholesky", "plu", "cg", "gmres", "lanczos", "arnoldi", "hutch", "flatten", "inv_left", "inv_T", "rmatmat", "to_dtype", "eigmax", "eigmax",
          "repeat"]
 
 
@@ -145,7 +145,7 @@ def product_cases(draw, tier):
 
 
 def strategy(tier):
-    return st.one_of(history_cases(tier), history_cases(tier), flatten_cases(tier), product_cases(tier))
+    return st.one_of(history_cases(tier), history_cases(tier), flatten_cases(tier), product_cases(tier), product_cases(tier))
 
 
 class Ctx:
@@ -255,6 +255,8 @@ class Ctx:
             return L.pow(A, s["p"]) @ b
         if name == "eig":
             return L.eig(A, min(s["k"], self.n))
+        if name == "eigmax":  # default algorithm object (one shared instance per process)
+            return L.eigmax(A)
         if name == "svd":
             from cola.linalg.svd.svd import svd
             return svd(A, min(s["k"], self.n))
@@ -312,8 +314,36 @@ def result_arrays(x):
         return []
 
 
+def default_algorithm_objects():
+    """the algorithm objects that serve as default arguments of the public functions (one shared instance per function and
+    process): they are part of what a later call with the algorithm omitted computes"""
+    import inspect
+    import cola
+    from cola.linalg.svd.svd import svd
+    L = cola.linalg
+    found = []
+    for name in ("inv", "solve", "pinv", "eig", "eigmax", "eigmin", "logdet", "slogdet", "diag", "trace", "exp", "log", "sqrt", "isqrt", "pow",
+                 "apply_unary"):
+        fns = [getattr(L, name)]
+        for fn in fns:
+            try:
+                for k, prm in inspect.signature(fn).parameters.items():
+                    if prm.default is not inspect._empty and hasattr(prm.default, "__dict__"):
+                        found.append((f"{name}.{k}", prm.default))
+            except (TypeError, ValueError):
+                pass
+    try:
+        for k, prm in inspect.signature(svd).parameters.items():
+            if prm.default is not inspect._empty and hasattr(prm.default, "__dict__"):
+                found.append((f"svd.{k}", prm.default))
+    except (TypeError, ValueError):
+        pass
+    return found
+
+
 def check_history(case, out):
     ctx = Ctx(case["trees"], case["n"], case["seed"])
+    defaults = [(nm, obj, repr(sorted(vars(obj).items(), key=lambda kv: kv[0]))) for nm, obj in default_algorithm_objects()]
     steps = case["steps"]
     kinds = {s["s"] for s in steps}
     out.label(*["step:" + s["s"] for s in steps])
@@ -336,6 +366,10 @@ def check_history(case, out):
 
     def invariants(i, s):
         site = s["s"] + (":" + s.get("alg", "") if "alg" in s else "")
+        for nm, obj, before in defaults:
+            if repr(sorted(vars(obj).items(), key=lambda kv: kv[0])) != before:
+                out.fail("default_algorithm_mutated", site, nm, f"step {i} ({s['s']}): the default algorithm object of {nm} is now {vars(obj)} (was {before})")
+                return False
         for k, a in ctx.arrays.items():
             if snap(a) != model_arr[k]:
                 out.fail("caller_array_mutated", site, k, f"step {i} ({s['s']}) changed the caller's array '{k}'")
@@ -462,6 +496,14 @@ def check_flatten(case, out):
     exp = expected_leaves(tree) + scalar_nodes(tree)
     if not has_rewrite and len(vals) != exp:
         out.fail("leaves", site, "count", f"{len(vals)} leaves, the IR predicts {exp}")
+    # a scalar multiple (or a ScalarMul operator) of a plain leaf: its constant is a parameter of the operator like any
+    # other, whatever kind of scalar it was built from (Python number, NumPy scalar, 0-d array)
+    plain = ("dense", "diag", "tri", "tridiag", "lazify", "kernel", "hh")
+    if tree["k"] in ("scale", "neg", "div") and tree["ch"][0]["k"] in plain and len(vals) != expected_leaves(tree["ch"][0]) + 1:
+        out.fail("leaves", site, "count", f"{len(vals)} leaves for a scalar multiple of a {tree['ch'][0]['k']} operator "
+                 f"({expected_leaves(tree['ch'][0])} array parameters + the scalar)")
+    if tree["k"] == "smul" and len(vals) != 1:
+        out.fail("leaves", site, "count", f"{len(vals)} leaves for a ScalarMul operator (its constant is its only parameter)")
     # substituting one leaf changes exactly that parameter
     if vals:
         i = case["leaf"] % len(vals)
